@@ -150,6 +150,25 @@ def applyL (t : RT) : List Ent → Heap → List Ent × Heap
       (r1.1 :: r2.1, r2.2)
 end
 
+mutual
+/-- `ElementBase.shear(normal, origin, direction, angle)`: `for component in self.parts: component.shear(…)`.  No class
+    overrides it except `Point` and `Array`; an `AxisVector` inherits `Point.shear` and is moved like a point; the tree
+    itself is not changed (no inversion, and `.parts` of an interpolated curve still drops its cache) -/
+def shearE (f : V3 → V3) : Ent → Heap → Ent × Heap
+  | .pt i, h => (.pt i, h.modify i f)
+  | .dir i, h => (.dir i, h.modify i f)
+  | .arr is, h => (.arr is, is.foldl (fun h i => h.modify i f) h)
+  | .node k a ch, h =>
+      let r := shearL f ch h
+      (.node k (touchAttr k a) r.1, r.2)
+def shearL (f : V3 → V3) : List Ent → Heap → List Ent × Heap
+  | [], h => ([], h)
+  | e :: es, h =>
+      let r1 := shearE f e h
+      let r2 := shearL f es r1.2
+      (r1.1 :: r2.1, r2.2)
+end
+
 /-! ### output geometry: the value tree -/
 
 /-- an entity as its output geometry: every cell replaced by the value it holds -/
@@ -792,9 +811,27 @@ def handleShear (args : List String) : Option String :=
       some ("ok " ++ " ".intercalate (ps.map (fun p => (shearP n o d sn sd c p).toStr)))
   | _ => none
 
+/-- `c09.shearent <n> <o> <d> <sn> <sd> <cot> <ncells> <cell…> <tok…>` → the sheared entity, resolved, in post-order -/
+def handleShearEnt (args : List String) : Option String :=
+  match args with
+  | n :: o :: d :: sn :: sd :: c :: nc :: rest => do
+      let n ← parseV3? n; let o ← parseV3? o; let d ← parseV3? d
+      let sn ← parseRat? sn; let sd ← parseRat? sd; let c ← parseRat? c
+      let nc ← parseNat? nc
+      if rest.length < nc then none
+      let h ← (rest.take nc).mapM parseV3?
+      let e ← parseTree (rest.drop nc)
+      if (cellsE e).any (fun i => i ≥ h.length) then none
+      let ok (s : Rat) (v : V3) : Bool := s > 0 && absQ (s * s - V3.dot v v) ≤ (1 / 1000000000) * (1 + V3.dot v v)
+      if !(ok sn n && ok sd d) then some "bad-witness" else
+      let r := shearE (shearP n o d sn sd c) e h
+      some ("ok " ++ " ".intercalate (showE r.2 r.1))
+  | _ => none
+
 def handle (op : String) (args : List String) : Option String :=
   match op with
   | "c09.shear" => handleShear args
+  | "c09.shearent" => handleShearEnt args
   | "c09.run" => handleRun args
   | "c09.prim" => handlePrim args
   | "c09.wf" => handleWf args
